@@ -1522,6 +1522,16 @@ where
     }
 }
 
+/// Verification seam: with the `verif_hooks` feature this module shadows the `rand` crate inside
+/// this file, so that the (unmodified) jitter draw below is routed through
+/// `crate::verif_hooks::draw_u64()`.
+#[cfg(feature = "verif_hooks")]
+mod rand {
+    pub fn random<T: From<u64>>() -> T {
+        T::from(crate::verif_hooks::draw_u64())
+    }
+}
+
 /// Return a random number in [n - range / 2, n - range / 2 + range).
 fn randomize(n: u64, range: u64) -> u64 {
     n - range / 2 + rand::random::<u64>() % range
